@@ -152,7 +152,7 @@ def decode(idx, K):
 # ---------------------------------------------------------------------------- plan
 def tier_params(tier):
     if tier == "quick":
-        return {"K": 3, "G": 96, "mapk_cases": 40, "mapk_per": 50, "rand_cases": 4000, "rand_per": 96}
+        return {"K": 3, "G": 96, "mapk_cases": 40, "mapk_per": 50, "rand_cases": 7000, "rand_per": 96}
     return {"K": 4, "G": 1024, "mapk_cases": 280, "mapk_per": 100, "rand_cases": 20000, "rand_per": 512}
 
 
